@@ -93,6 +93,10 @@ CORE_PIPES = lambda n: [[], [['dep', None]], [['wrap'], ['dep', '_mod']]] + ([[[
                                                                                [['dup', 1, False], ['rem', 1]]] if n > 1 else [])
 
 
+PIPES3 = lambda n: [[]] + ([[['dup', 1, True]], [['dup', 1, False], ['rem', 1]]] if n > 1 else [])
+PIPES3E = lambda n: [[['dep', None]]] + ([[['dup', 1, True]], [['rem', 1]]] if n > 1 else [])
+
+
 def config_menu(n):
     """[(switch, [values])] -- each value is one deviation"""
     ks = list(range(1, n))
@@ -375,7 +379,9 @@ def judge(project, src, st, plan, written, orig_files):
                 continue
             f = next(f for f in derives[w] if stem(f) == stem(w))
             rf = os.path.relpath(f, str(src))
-            preds = {predicted_lib(project, cfg, pr.idx) for pr in project.procs if pr.file == rf and pr.name in wtok[w]}
+            # every unit of the original file counts (a unit may have been dropped from the written text): units of one
+            # file with different libraries make the file's library a matter of item order -> don't-care
+            preds = {predicted_lib(project, cfg, pr.idx) for pr in project.procs if pr.file == rf}
             if len(preds) != 1 or '?' in preds:
                 continue
             pl = preds.pop()
@@ -575,15 +581,15 @@ def run(ctx):
         stages += [
             ('B1: core projects (n=3, >=2 edges, ONLY imports, 8 layouts, both declaration styles) x 6 core pipelines x exactly one '
              'configuration deviation; API', mk(core, CORE_PIPES, lambda n: dev(n, 1))),
-            ('B2: core projects with the complete DAG x 6 core pipelines x exactly two configuration deviations; API',
-             mk(corefull, CORE_PIPES, lambda n: dev(n, 2))),
-            ('C: CLI replay (loki_transform plan / convert via CliRunner): core projects x 6 core pipelines x <= 1 configuration '
-             'deviation', mk(core, CORE_PIPES, lambda n: dev(n, 0) + dev(n, 1), 'cli')),
+            ('B2: core projects with the complete DAG x 3 pipelines (none, dup+subgraph, dup+rem) x exactly two configuration '
+             'deviations; API', mk(corefull, PIPES3, lambda n: dev(n, 2))),
+            ('C: CLI replay (loki_transform plan / convert via CliRunner): core projects with the chain or complete DAG x 6 core '
+             'pipelines x <= 1 configuration deviation', mk(core2, CORE_PIPES, lambda n: dev(n, 0) + dev(n, 1), 'cli')),
             ('D: complete-DAG projects with exactly one feature (type-bound, generic, module variable, recursion, external, ...) x '
              'single-step pipelines and wrap+dep; base configuration and FileWrite include_module_var_imports; API',
              mk(f1, single, lambda n: [[], [['modimports', True]]])),
-            ('E: all other projects x core pipelines x exactly one configuration deviation; API',
-             mk(rest, CORE_PIPES, lambda n: dev(n, 1))),
+            ('E: all other projects x 3 pipelines (dep, dup+subgraph, rem) x exactly one configuration deviation; API',
+             mk(rest, PIPES3E, lambda n: dev(n, 1))),
         ]
     d = 1 if ctx.quick else 2
     total = collections.Counter()
@@ -602,6 +608,9 @@ def run(ctx):
         total.update(stc)
         done.append(dict(stage=title, cases=stc['cases'], judged=stc['ok'] + stc['fail'], conversion_failed=stc['convfail'],
                          failing=stc['fail'], wall_s=round(ctx.elapsed() - t0, 1), cpu_s=round(stc['cpu'], 1)))
+        if os.environ.get('VERIF_PROGRESS'):
+            import sys
+            print(f'[C24] {done[-1]}', file=sys.stderr, flush=True)
     ctx.require(total['ok'] + total['fail'] >= 1000, f'vacuous: only {total["ok"] + total["fail"]} judged cases')
     ctx.require(total['with_duplicate_file'] >= 50 and total['with_fewer_files'] >= 50,
                 f'vacuous: item-creating / item-removing pipelines had no effect on the written files '
